@@ -2,7 +2,7 @@
    finite generated table). *)
 From Coq Require Import List String ZArith NArith Bool.
 Import ListNotations.
-From VF Require Import C16.Model C16.Proofs C16.ProofsF C16.ProofsA.
+From VF Require Import C16.Model C16.Proofs C16.ProofsF C16.ProofsA C16.ProofsB1 C16.ProofsB2.
 Local Open Scope string_scope.
 Local Open Scope list_scope.
 
@@ -93,6 +93,58 @@ Theorem forms_roundtrip_context : forall ss cs,
   dec_context (Some (enc_context ss cs)) = Some (ss, map f64j cs).
 Proof. exact context_roundtrip. Qed.
 Print Assumptions forms_roundtrip_context.
+
+(* ---- the coders of the structured members: what is serialised for a parsed value parses back to that value ----
+   The guard (elem_ok / objs_ok) on the INPUT member: its objects have no repeated member name and no case variant of
+   id / type (the known-finding class); numbers are unrestricted (float64 decoding is idempotent). *)
+Theorem forms_roundtrip_typedid : forall m s,
+  clean tid_names m = true -> dec_sstruct typedID_fields m = Some s ->
+  match enc_sstruct s with JObj m' => dec_sstruct typedID_fields m' = Some s | _ => False end.
+Proof. exact typedid_reparse. Qed.
+Print Assumptions forms_roundtrip_typedid.
+
+(* termsOfUse, refreshService: absent / single object / array *)
+Theorem forms_roundtrip_typedids : forall o l,
+  objs_ok tid_names o = true -> dec_typedids o = Some l -> dec_typedids (enc_list enc_sstruct l) = Some l.
+Proof. exact typedids_reparse. Qed.
+Print Assumptions forms_roundtrip_typedids.
+
+(* credentialSchema: absent / null / single / array, always written as an array *)
+Theorem forms_roundtrip_schemas : forall o l,
+  objs_ok tid_names o = true -> dec_schemas o = Some l -> dec_schemas (enc_schemas l) = Some l.
+Proof. exact schemas_reparse. Qed.
+Print Assumptions forms_roundtrip_schemas.
+
+Theorem forms_roundtrip_status : forall o t,
+  objs_ok tid_names o = true -> dec_status o = Some t -> dec_status (option_map enc_sstruct t) = Some t.
+Proof. exact status_reparse. Qed.
+Print Assumptions forms_roundtrip_status.
+
+(* proof: absent / null / single / array *)
+Theorem forms_roundtrip_proofs : forall o l, dec_proofs o = Some l -> dec_proofs (enc_list enc_proof1 l) = Some l.
+Proof. exact proofs_reparse. Qed.
+Print Assumptions forms_roundtrip_proofs.
+
+(* credentialSubject: absent / null / id string / object / array of objects and id strings *)
+Theorem forms_roundtrip_subject : forall o s,
+  objs_ok id_names o = true -> dec_subject Fixed o = Some s -> dec_subject Fixed (enc_subject s) = Some s.
+Proof. exact subject_reparse. Qed.
+Print Assumptions forms_roundtrip_subject.
+
+(* issuer: absent / id string / object with custom members *)
+Theorem forms_roundtrip_issuer : forall o s,
+  objs_ok id_names o = true -> dec_issuer o = Some s -> dec_issuer (issuer_out s) = Some s.
+Proof. exact issuer_reparse. Qed.
+Print Assumptions forms_roundtrip_issuer.
+
+(* the guard is needed: a case variant of id makes the coder not idempotent *)
+Theorem forms_roundtrip_case_variant_refuted :
+  let m := [("ID", JStr "b"); ("id", JStr "a")] in
+  option_map id_of (dec_sstruct typedID_fields m) = Some "a" /\
+  option_map id_of (match option_map enc_sstruct (dec_sstruct typedID_fields m) with
+                    | Some (JObj m') => dec_sstruct typedID_fields m' | _ => None end) = Some "b".
+Proof. vm_compute. split; reflexivity. Qed.
+Print Assumptions forms_roundtrip_case_variant_refuted.
 
 (* ---- key fingerprints (multibase/base58 layer outside: sampled on btcutil) ----
    for every code of the generated multicodec table except G1G2 and every key byte string:
